@@ -528,7 +528,6 @@ func (vfs *MemFS) OpenFile(name string, flag int, perm fs.FileMode) (avfs.File, 
 		return (*MemFile)(nil), &fs.PathError{Op: op, Path: name, Err: vfs.err.NoSuchFile}
 	}
 
-	at := int64(0)
 	om := avfs.ToOpenMode(flag)
 
 	// With O_CREATE|O_EXCL a symbolic link in the last element of the path is not followed: the name exists.
@@ -567,7 +566,6 @@ func (vfs *MemFS) OpenFile(name string, flag int, perm fs.FileMode) (avfs.File, 
 				nd:       child,
 				vfs:      vfs,
 				name:     name,
-				at:       at,
 				openMode: om,
 			}
 
@@ -598,10 +596,6 @@ func (vfs *MemFS) OpenFile(name string, flag int, perm fs.FileMode) (avfs.File, 
 			c.truncate(0)
 		}
 
-		if om&avfs.OpenAppend != 0 {
-			at = c.size()
-		}
-
 	case *dirNode:
 		c.mu.Lock()
 		defer c.mu.Unlock()
@@ -623,7 +617,6 @@ func (vfs *MemFS) OpenFile(name string, flag int, perm fs.FileMode) (avfs.File, 
 		nd:       child,
 		vfs:      vfs,
 		name:     name,
-		at:       at,
 		openMode: om,
 	}
 
